@@ -26,6 +26,7 @@ RULE = (
     "all 2-op histories over 256 keys x 3 values (thorough; quick: 16 keys). Non-trivial "
     "= >=2 written keys diverging at depth >=8 and a delete with a non-blank default. "
     "Distinct = canonical JSON."
+    ' Added after the seeded rounds: values that are byte-for-byte empty-subtree node encodings / hashes of the tree itself, bit-complement keys, writes through the from_db view, default constructor arguments, and a fixed case that runs every operation on 32-byte keys with only 100 frames of stack left.'
 )
 LEVEL_TEXT = (
     "Exploration by model-based + differential property testing against a dict model "
